@@ -98,7 +98,7 @@ def step (s : St) (pre post : List String) : St × Verdict :=
         -- outside transactions only the feature-activation hook of the gov BeginBlocker may touch the
         -- ACL (x/gov/module.go activateAdditionalParametersACL): new keys, owned by the DAO owner,
         -- and the new parameters themselves appear; nothing that existed may change
-        let aclOk := p.acl.all (fun e => g.acl.getOwner e.1 == e.2) &&
+        let aclOk := p.acl.all (fun e => g.acl.getOwner e.1 == p.acl.getOwner e.1) &&
           g.acl.all (fun e => p.acl.any (fun e' => e'.1 == e.1) || e.2 == p.daoOwner)
         let parOk := p.params.all (fun e => e.1 == "gov/acl" || g.params.get e.1 == some e.2)
         if !(aclOk && parOk && g.daoOwner == p.daoOwner) then
